@@ -42,6 +42,27 @@ CLAIMED = {
     "C19": dict(level="exploration", design="5/C19", technique="trace validation of every public ppv-null method against lane-wise scalar semantics in TLA+ (TLC as oracle)",
                 text="Every public method of the five ppv-null types is called on structured and random operands in debug and release builds; TLC compares results with TraceNull.tla (scalar lane semantics) and rejects panics.",
                 note="Trusted: TLC, the scalar semantics in TraceNull.tla/SimdOps.tla, sampled operands, harness recording (canary)."),
+    "C04": dict(level="exploration", design="5/C04", technique="trace validation of digests against an executable TLA+ specification of BLAKE (TLC as oracle)",
+                text="Digests of all four BLAKE variants over a sweep of message lengths (every residue, both final-block boundaries) on the AVX2, SSE2 and portable backends are recomputed by TLC from Blake.tla, "
+                     "an independent transcription of the submission document pinned by its published vectors.",
+                note="Trusted: TLC, Blake.tla (published vectors each run), sampled messages, harness recording (canary)."),
+    "C05": dict(level="exploration", design="5/C05", technique="trace validation of digests against executable TLA+ specifications of Skein/Threefish (TLC as oracle)",
+                text="Digests of Skein256/512/1024<N> over message-length sweeps and 25 output lengths (1..300 bytes, several output blocks, non-multiples of 8) are recomputed by TLC from Skein.tla/Threefish.tla, "
+                     "pinned by Skein 1.3 reference digests and the Threefish NIST vectors.",
+                note="Trusted: TLC, Skein.tla/Threefish.tla (published vectors each run), sampled messages and output lengths."),
+    "C06": dict(level="exploration", design="5/C06", technique="trace validation of digests against an executable TLA+ specification of JH in its nibble-oriented definition (TLC as oracle)",
+                text="Digests of all four JH variants over message-length sweeps on the AVX2, SSE2 and portable backends are recomputed by TLC from JH.tla, which follows the specification's nibble-oriented definition "
+                     "(constants generated, IVs derived) and is pinned by NIST KAT digests.",
+                note="Trusted: TLC, JH.tla (NIST KATs each run), sampled messages."),
+    "C07": dict(level="exploration", design="5/C07", technique="trace validation of digests against an executable TLA+ specification of Groestl on the byte matrix (TLC as oracle)",
+                text="Digests of all four Groestl variants over message-length sweeps (incl. the <=8-bytes-left boundary) are recomputed by TLC from Groestl.tla (byte-matrix definition, S-box derived), pinned by NIST KAT digests.",
+                note="Trusted: TLC, Groestl.tla (NIST KATs each run), sampled messages."),
+    "C09": dict(level="exploration", design="5/C09", technique="trace validation of encrypt_block events against Threefish.tla (TLC as oracle)",
+                text="Ciphertexts of Threefish256/512/1024 for structured and random (key, tweak, block) triples, with and without no_unroll, are recomputed by TLC from Threefish.tla (pinned by NIST vectors).",
+                note="Trusted: TLC, Threefish.tla, sampled inputs."),
+    "C10": dict(level="exploration", design="5/C10", technique="trace validation of both composition orders and of decrypt_block against an independently written TLA+ inverse",
+                text="For every sampled triple D(E(x)) = x and E(D(x)) = x on the real code and D(x) equals Threefish.tla!Decrypt, an inverse written independently of Encrypt.",
+                note="Trusted: TLC, Threefish.tla, sampled inputs."),
 }
 
 PENDING = {  # properties whose checks are not built yet in this tree (kept current as checks land)
